@@ -104,4 +104,23 @@ PROPS = {
         "modelled": ['modelled, not verified: everything the operating system does (Lstat, ReadAt, WriteAt, Readdir, Mkdir, Symlink, Link, Remove, Rename, Truncate, Chmod, Chtimes), os/user, time; sort.SearchInts as first-index->= on a sorted slice'],
         "assumptions": ["G9.UfsLogic mirrors the arithmetic/decision logic of ufs.go and the client file helpers (checked by the differential run)", "runs as the current user; permission-denied outcomes are never required"],
     },
+    "C09": {
+        "rule": "real Clnt on an in-memory pipe against a scripted peer with its own frame reader: 1,2,3,4,5,8,17,64 concurrent callers, "
+                "a random reply order per run (all permutations of up to 5 are reached over the seeds), reply kinds {matching R, Rerror with text "
+                "and number, mismatched R}, the reply stream cut at up to 12 random points with delays; every call must return its own payload / "
+                "the server's error / an error; tags seen by the peer pairwise distinct; 70 000 consecutive calls on one connection; the "
+                "observed schedule is replayed through the Lean client model and its tag accounting compared with the client's. "
+                "non-trivial = distinct scenarios in which all calls returned",
+        "modelled": ["modelled, not verified: Go channels as FIFO lists; the Tag (pipelined) interface is exercised by the library's own tests only"],
+        "assumptions": ["G9.Clnt mirrors ReqAlloc/ReqFree/Rpc/Rpcnb/recv (checked by the differential run on the accounting)"],
+    },
+    "C10": {
+        "rule": "0..4 outstanding calls; the peer's reply stream is cut after every byte offset (sub-sampled above 40 offsets in the quick tier) "
+                "and the connection closed; garbage, oversize (msize+1 and 2^31 with 9*msize bytes following), undersize frames, a reply with an "
+                "unknown tag, Unmount during calls, a caller entering while the failure happens; oracle: every call returns, success only for "
+                "replies completely inside the delivered prefix (payload intact), complete replies are delivered, later calls are refused "
+                "promptly and cost no tag; schedule replayed through the Lean model. non-trivial = distinct failure scenarios",
+        "modelled": ["modelled, not verified: wall-clock bounds (an 8 s watchdog tells blocked from slow)"],
+        "assumptions": ["as C09"],
+    },
 }
